@@ -365,6 +365,37 @@ func runC19(p *core.Prog, r *core.Report, tier string) {
 						if format, ok := constString(x.Call.Args[0]); ok {
 							first := strings.SplitN(format, ".", 2)[0]
 							okLeaf = first != "" && !strings.Contains(first, "%") && !strings.HasSuffix(format, ".")
+							if !okLeaf && len(x.Call.Args) == 2 && wellFormedPathFormat(format) {
+								// "%s.%s" and the like: every part is known to be non-empty where the path is built — a
+								// parameter that is a non-empty literal at every call, or a value that control only arrives
+								// with after it compared equal to a non-empty literal
+								okLeaf = true
+								for _, e := range variadicElems(x.Call.Args[1]) {
+									if e == nil {
+										okLeaf = false
+										continue
+									}
+									if mi, isMI := e.(*ssa.MakeInterface); isMI {
+										e = mi.X
+									}
+									good := false
+									if prm, isPrm := e.(*ssa.Parameter); isPrm {
+										k := core.ParamIndex(prm.Parent(), prm.Name())
+										os := p.ParamOrigins(prm.Parent(), k, 0)
+										good = len(os) > 0
+										for _, o := range os {
+											if lit, isLit := constString(o); !isLit || lit == "" || strings.HasPrefix(lit, ".") || strings.HasSuffix(lit, ".") {
+												good = false
+											}
+										}
+									} else {
+										good = arrivesOnlyWithNonEmpty(x.Block(), e, 0)
+									}
+									if !good {
+										okLeaf = false
+									}
+								}
+							}
 						}
 					} else if callee := x.Call.StaticCallee(); callee != nil && len(callee.Blocks) > 0 && callee.Signature.Results().Len() == 1 {
 						// a helper that works the path out: every value it can return is a well-formed path (or "")
@@ -1446,4 +1477,14 @@ func presenceRel(rel string, other *core.VD) (bool, string) {
 		}
 	}
 	return false, ""
+}
+
+// wellFormedPathFormat: the format is made of %s verbs and literal text only, joined so that no component is empty by
+// construction ("%s.%s", "%s.style", "a.%s"): no leading or trailing period, no two periods in a row.
+func wellFormedPathFormat(format string) bool {
+	if format == "" || strings.HasPrefix(format, ".") || strings.HasSuffix(format, ".") || strings.Contains(format, "..") {
+		return false
+	}
+	rest := strings.ReplaceAll(format, "%s", "x")
+	return !strings.Contains(rest, "%")
 }
